@@ -33,10 +33,22 @@ there (C08:M3) while the C07 check, which observes `Scanner::scan` / `simple_sca
 %d of them were caught only after the check was strengthened (recorded in the last column).
 
 **Regression at the end of the round.** The generators kept changing while the rounds went on, so a change caught in
-round 3 need not be caught by the machinery as committed. At the end every one of the changes that had needed
-strengthening (30) and a random selection of the others (45) - 75 of the 139 - were applied once more in scratch
-worktrees and the final quick check of their property was run against them (`seeded_regression_final.txt`): 75 of 75
-reported a violation. (The remaining 64 were last checked in the round in which they were written.)
+round 3 need not be caught by the machinery as committed. At the end of the build round every one of the changes that
+had needed strengthening (30) and a random selection of the others (45) - 75 of the then 139 - were applied once more in
+scratch worktrees and the final quick check of their property was run against them (`seeded_regression_final.txt`): 75 of
+75 reported a violation. In the following session six more of the remaining 64 were re-checked the same way (C07, C10 x2,
+C11 x3: 6 of 6 reported a violation; appended to the same file) before the machine was needed for round 17. (The other 58
+were last checked in the round in which they were written.)
+
+**Round 17** (six sub-agents: C04 C05 C08 C14 C15 C18). Caught as the checks stood: C04, C14, C18. Missed and the check
+strengthened: C15 (`C15-slice-eq-same-backing-by-offset`: equality of two views of the SAME string at different offsets
+was only ever observed between a view and the view nested in it, which cannot have the same length unless it is the same
+window; each `view` event now also builds a sibling view - same string, length and orientation, shifted by one period -
+and W4 demands `==` in both directions to agree with the bases; one base string in three is periodic) and C08
+(`C08-perm-index-through-u16`: the `msp` events only used minimizer types up to Kmer6; Kmer10 - 4^10 values, a
+permutation table of 2^20 entries - is now drawn for one event in eight, and cores are periodic after a short head in a
+quarter of all events so that several p-mers of one k-mer agree on most of their bases). Not kept: the C05 candidate
+(extension orientation of a self-reverse-complementary k-mer: not decided by the statement, `seeded_rejected/README.json`).
 """ % (len(rows), sum(1 for d in glob.glob(os.path.join(root, "seeded", "*")) if json.load(open(os.path.join(d, "meta.json"))).get("missed_before_strengthening")))
 rj = os.path.join(root, "seeded_rejected", "README.json")
 if os.path.exists(rj):
